@@ -260,6 +260,10 @@ func checkC01(w *World, r *Report) {
 		return strings.Contains(o.Key, "drain-starts-at-pill") || strings.Contains(o.Key, "nothing-after-stop")
 	})
 	importRules(w, r, checkC02, "C02", "C01.R5", func(o *Obligation) bool { return o.Rule == "C02.R2" || o.Rule == "C02.R3" || o.Rule == "C02.R1" })
+	// across a crash: the unprocessed rest of the batch is buffered from the cursor, unconditionally, and replayed first
+	importRules(w, r, checkC05, "C05", "C01.R5", func(o *Obligation) bool {
+		return o.Rule == "C05.R3" && strings.Contains(o.Key, "buffer-from-cursor") || o.Rule == "C05.R2" && (strings.Contains(o.Key, "replay-before-inbox") || strings.Contains(o.Key, "clears-replayed-buffer"))
+	})
 }
 
 // loopExitEdges: edges on which the worker loop leaves without a batch (stopped / empty pop).
@@ -1295,13 +1299,14 @@ func checkC12(w *World, r *Report) {
 	g := w.FGI(es)
 	st, _ := esT.Underlying().(*types.Struct)
 	var subsField *types.Var
+	subsName := ""
 	for i := 0; st != nil && i < st.NumFields(); i++ {
 		if _, ok := st.Field(i).Type().Underlying().(*types.Map); ok {
-			subsField = st.Field(i)
+			subsField, subsName = st.Field(i), pinnedFieldName(esT, st, i)
 		}
 		if p, ok := st.Field(i).Type().(*types.Pointer); ok {
 			if n, ok := p.Elem().(*types.Named); ok && n.Obj().Name() == "PIDSet" {
-				subsField = st.Field(i)
+				subsField, subsName = st.Field(i), pinnedFieldName(esT, st, i)
 			}
 		}
 	}
@@ -1332,17 +1337,17 @@ func checkC12(w *World, r *Report) {
 	for n, in := range g.ins {
 		switch x := in.(type) {
 		case *ssa.MapUpdate:
-			if strings.HasSuffix(w.pathOf(x.Map), "."+subsField.Name()) {
+			if strings.HasSuffix(w.pathOf(x.Map), "."+subsName) {
 				insKey, insVal = w.pathOf(x.Key), w.pathOf(x.Value)
 				insKeyV = x.Key
 				insN = append(insN, n)
 			}
 		case *ssa.Call:
-			if bi, ok := x.Call.Value.(*ssa.Builtin); ok && bi.Name() == "delete" && strings.HasSuffix(w.pathOf(x.Call.Args[0]), "."+subsField.Name()) {
+			if bi, ok := x.Call.Value.(*ssa.Builtin); ok && bi.Name() == "delete" && strings.HasSuffix(w.pathOf(x.Call.Args[0]), "."+subsName) {
 				delKey = w.pathOf(x.Call.Args[1])
 				delN = append(delN, n)
 			}
-			if f := x.Call.StaticCallee(); f != nil && f.Signature.Recv() != nil && len(x.Call.Args) == 2 && strings.HasSuffix(w.pathOf(x.Call.Args[0]), "."+subsField.Name()) {
+			if f := x.Call.StaticCallee(); f != nil && f.Signature.Recv() != nil && len(x.Call.Args) == 2 && strings.HasSuffix(w.pathOf(x.Call.Args[0]), "."+subsName) {
 				switch f.Name() {
 				case "Add":
 					insKey, insVal = "set:"+w.pathOf(x.Call.Args[1]), w.pathOf(x.Call.Args[1])
